@@ -22,9 +22,51 @@ pub trait Family: Sized + 'static {
     fn thin_from_slice(_h: Self::H, _s: &[Self::E]) -> Option<ThinArc<Self::H, Self::E>> {
         None
     }
+    /// When P and Q are the same type: the same Arc seen as an Arc<Q> (so that a first-variant
+    /// and a second-variant union can refer to one allocation). Err gives the Arc back.
+    fn p_as_q(a: Arc<Self::P>) -> Result<Arc<Self::Q>, Arc<Self::P>> {
+        Err(a)
+    }
 }
 
 macro_rules! family {
+    ($name:ident, $p:ty, $q:ty, $h:ty, $e:ty, same) => {
+        pub struct $name;
+        impl Family for $name {
+            const NAME: &'static str = concat!(stringify!($name), "(P=", stringify!($p), ",Q=", stringify!($q), ",H=", stringify!($h), ",E=", stringify!($e), ")");
+            const E_COPY: bool = false;
+            type P = $p;
+            type Q = $q;
+            type H = $h;
+            type E = $e;
+            fn p_as_q(a: Arc<Self::P>) -> Result<Arc<Self::Q>, Arc<Self::P>> {
+                Ok(a)
+            }
+        }
+    };
+    ($name:ident, $p:ty, $q:ty, $h:ty, copy $e:ty, same) => {
+        pub struct $name;
+        impl Family for $name {
+            const NAME: &'static str = concat!(stringify!($name), "(P=", stringify!($p), ",Q=", stringify!($q), ",H=", stringify!($h), ",E=", stringify!($e), ":Copy)");
+            const E_COPY: bool = true;
+            type P = $p;
+            type Q = $q;
+            type H = $h;
+            type E = $e;
+            fn hs_from_slice(h: Self::H, s: &[Self::E]) -> Option<Arc<HeaderSlice<Self::H, [Self::E]>>> {
+                Some(Arc::from_header_and_slice(h, s))
+            }
+            fn sl_from_slice(s: &[Self::E]) -> Option<Arc<[Self::E]>> {
+                Some(Arc::from(s))
+            }
+            fn thin_from_slice(h: Self::H, s: &[Self::E]) -> Option<ThinArc<Self::H, Self::E>> {
+                Some(ThinArc::from_header_and_slice(h, s))
+            }
+            fn p_as_q(a: Arc<Self::P>) -> Result<Arc<Self::Q>, Arc<Self::P>> {
+                Ok(a)
+            }
+        }
+    };
     ($name:ident, $p:ty, $q:ty, $h:ty, $e:ty) => {
         pub struct $name;
         impl Family for $name {
@@ -59,13 +101,13 @@ macro_rules! family {
 }
 
 family!(F0, T8A8, T4A4, T4A4, T2A2);
-family!(F1, T1A1, T1A1, T1A1, T1A1);
+family!(F1, T1A1, T1A1, T1A1, T1A1, same);
 family!(F2, T16A16, T8A8, T16A16, T4A4);
 family!(F3, T32A32, T2A2, T2A2, T32A32);
-family!(F4, T64A64, T64A64, Z0, T8A8);
+family!(F4, T64A64, T64A64, Z0, T8A8, same);
 family!(F5, Z0, T8A8, T8A8, Z0);
 family!(F6, T24A8, Z0, T24A8, T3A1P);
-family!(F7, T4A4, T4A4, T4A4, copy C2A2);
+family!(F7, T4A4, T4A4, T4A4, copy C2A2, same);
 family!(F8, T8A4, T12A4, Z0, copy C1A1);
 family!(F9, T40A8, T16A16, T8A8, copy C16A16);
 family!(F10, T2A1P, T6A2, T1A1, copy C8A8);
